@@ -24,6 +24,7 @@ GENERATORS = [
     ("GenUi.v", "tr_ui"),
     ("GenMain.v", "tr_main"),
     ("GenClassify.v", "tr_classify"),
+    ("GenFilter.v", "tr_filter"),
 ]
 
 
